@@ -27,7 +27,43 @@ def run(cmd, cwd, timeout=900):
     return p.returncode, p.stdout
 
 
+def recheck():
+    """seed.py --recheck <seed-id> <check-id>[,...] [tier]: run checks against a stored, already
+    confirmed seed (after the checks were strengthened); records meta['after_strengthening']."""
+    sid, checks = sys.argv[2], sys.argv[3].split(",")
+    tier = sys.argv[4] if len(sys.argv) > 4 else "quick"
+    sd = os.path.join(VERIF, "seeded", sid)
+    meta = json.load(open(os.path.join(sd, "meta.json")))
+    assert meta.get("kept"), "seed was not confirmed"
+    rc, out = run(["git", "status", "--porcelain"], REPO)
+    assert out.strip() == "", "/repo is not clean: " + out
+    rc, out = run(["git", "apply", os.path.join(sd, "patch.diff")], REPO)
+    assert rc == 0, out
+    res = {}
+    try:
+        for c in checks:
+            evf = os.path.join(VERIF, "evidence", c + ".json")
+            evbak = open(evf).read() if os.path.exists(evf) else None
+            p = subprocess.run([os.path.join(VERIF, "check"), c, tier], cwd=VERIF, stdout=subprocess.PIPE, stderr=subprocess.STDOUT, text=True, timeout=3600)
+            lines = p.stdout.splitlines()
+            res[c] = {"exit": p.returncode,
+                      "violations": sorted({re.sub(r"^.*/replay/[^/]+/", "", l).replace(".json", "") for l in lines if l.startswith("VIOLATION")}),
+                      "summary": [l for l in lines if l.startswith(c + " ")]}
+            if evbak is not None:
+                open(evf, "w").write(evbak)
+    finally:
+        subprocess.run(["git", "-C", REPO, "checkout", "--", "."], check=True)
+        rc, out = run(["git", "status", "--porcelain"], REPO)
+        assert out.strip() == "", "/repo not restored: " + out
+    meta.setdefault("after_strengthening", {}).update(res)
+    meta["detected_by_after_strengthening"] = sorted(set(meta.get("detected_by_after_strengthening", [])) | {c for c, r in res.items() if r["exit"] == 1 and r["violations"]})
+    json.dump(meta, open(os.path.join(sd, "meta.json"), "w"), indent=1)
+    print(json.dumps({sid: {c: (r["exit"], r["violations"][:4]) for c, r in res.items()}}, indent=1))
+
+
 def main():
+    if sys.argv[1] == "--recheck":
+        return recheck()
     sid, awt, prop, checks = sys.argv[1], sys.argv[2], sys.argv[3], sys.argv[4].split(",")
     tier = sys.argv[5] if len(sys.argv) > 5 else "quick"
     patch = os.path.join(awt, "SEED", "patch.diff")
